@@ -320,6 +320,25 @@ func main() {
 		checkPair("font-family", "serif,\""+x+"\"", true)
 	})
 	shaped = vlib.SeqCount(len(inner), innerLen) * 9
+	// quoted names and URLs that begin with 1..10 multi-byte characters (byte offsets and rune counts drift apart)
+	// followed by every inner string ≤ 2: a length compared in the wrong unit stops checking early
+	multi := 0
+	for _, mb := range []string{"é", "中", "😀"} {
+		for k := 1; k <= 10; k++ {
+			pre := strings.Repeat(mb, k)
+			vlib.Seqs(inner, 2, func(x string, _ []int) bool {
+				for _, y := range []string{x, x + "\"", "\";" + x + "\""} {
+					checkPair("font-family", "\""+pre+y+"\"", true)
+					checkPair("font-family", "serif,\""+pre+y+"\"", false)
+					checkPair("background-image", "url(\""+pre+y+"\")", true)
+					checkPair("color", pre+y, false)
+					multi += 4
+				}
+				return true
+			})
+		}
+	}
+	run.Cov["multi_byte_prefixed_values"] = multi
 	// property names
 	vlib.SeqsParallel(nameTokens, nameLen, workers, func(_ int, n string) {
 		checkPair(n, "red", true)
